@@ -265,7 +265,8 @@ func (wd *c17World) agentCall(id c17Ident, endpoint, named, namedCls, rid, ridCl
 func c17GenCases(rng *rand.Rand, wd *c17World, keepFrac float64, history bool) {
 	w := wd.ID
 	idents := []c17Ident{{"no-oauth", nil}, {"stranger", &e3OAuth{Email: "stranger-" + w + "@sa.example.com"}},
-		{"oauth-admin-not-agent", &e3OAuth{Email: "root-" + w + "@corp.example.com", Admin: true}}}
+		{"oauth-admin-not-agent", &e3OAuth{Email: "root-" + w + "@corp.example.com", Admin: true}},
+		{"oauth-empty-email", &e3OAuth{Email: ""}}}
 	seenAgent := map[string]bool{}
 	for _, b := range wd.Bs {
 		if !seenAgent[b.Rec.BackendUser] {
@@ -455,9 +456,13 @@ func c17GenCases(rng *rand.Rand, wd *c17World, keepFrac float64, history bool) {
 				others = append(others, ob.Rec.EndUser)
 			}
 		}
-		path := escPath(b.Rec.PathPrefixes[len(b.Rec.PathPrefixes)-1] + "private/area")
+		short := escPath(b.Rec.PathPrefixes[len(b.Rec.PathPrefixes)-1] + "private/area")
+		// also paths of about 300 and 650 bytes (whatever is derived from user and path must still tell users apart)
+		paths := []string{short, short + "/" + strings.Repeat("segment-abcdefgh/", 17) + w, short + "/" + strings.Repeat("another-long-segment/", 30) + w}
+		path := short
 		// ... and at the same time: bursts of concurrent requests by the owner and by others
 		for k := 0; k < 4; k++ {
+			path = paths[k%3]
 			c := &c17Case{Meta: c17Meta{Kind: "user-burst", Endpoint: "client", Ident: "owner-and-others-at-once"}}
 			for j := 0; j < 12; j++ {
 				u := b.Rec.EndUser
@@ -468,9 +473,11 @@ func c17GenCases(rng *rand.Rand, wd *c17World, keepFrac float64, history bool) {
 			}
 			wd.add(c)
 		}
-		for k := 0; k < 8; k++ {
+		// (one history on evolving state: what an earlier request left behind stays in place)
+		for k := 0; k < 9; k++ {
+			path = paths[k%3]
 			for j, u := range []string{b.Rec.EndUser, others[k%len(others)]} {
-				c := &c17Case{Until: true, Meta: c17Meta{Kind: "user", Endpoint: "client", Ident: []string{"owner-of-private-backend", "other-user-right-after-owner"}[j], Email: u}}
+				c := &c17Case{Until: true, Keep: k+j > 0, Meta: c17Meta{Kind: "user", Endpoint: "client", Ident: []string{"owner-of-private-backend", "other-user-right-after-owner"}[j], Email: u, History: true}}
 				c.Call = e3Call{Module: "default", Method: "GET", Path: path, AEUser: u, ReqID: fmt.Sprintf("cl-%s-alt%d-%d-%d", w, nAlt, k, j)}
 				wd.add(c)
 			}
@@ -584,6 +591,9 @@ func c17GenCases(rng *rand.Rand, wd *c17World, keepFrac float64, history bool) {
 		{"ae-user-not-admin", nil, b0.Reqs[0].User, false, false},
 		{"oauth-agent-not-admin", &e3OAuth{Email: b0.Rec.BackendUser}, "", false, false},
 		{"nobody", nil, "", false, false},
+		{"oauth-empty-email", &e3OAuth{Email: ""}, "", false, false},
+		{"oauth-blank-email", &e3OAuth{Email: " "}, "", false, false},
+		{"oauth-comma-email", &e3OAuth{Email: ","}, "", false, false},
 	}
 	newRec := c17BackendRec{ID: "newbk-" + w, BackendUser: "newagent-" + w + "@sa.example.com", EndUser: "allUsers", PathPrefixes: []string{"/new/"}}
 	newJSON, _ := json.Marshal(newRec)
@@ -1349,7 +1359,7 @@ func (c *c17Case) class() string {
 
 // C17 — who may act as agent, user and admin.
 func C17(r *core.Run) {
-	r.SetRule("worlds of 1-3 registered backends (distinct/shared agent accounts, per-user/shared end users, plain and exotic IDs, IDs related across a separator (B2 = B1<sep>word for sep in : / | \" space . % \\) with request IDs crafted so that (backend, request ID) read across the separator names another backend's request, pending and answered requests with planted secrets) x caller identity {no OAuth, stranger, OAuth admin that is no agent, each agent} x endpoint {pending, request, response} x named backend {each, unknown, absent} x request ID {pending/answered of each backend, unknown, absent}; admin API {list, add, takeover, garbage, delete, other methods/paths} x {App Engine admin, OAuth admin, plain user, agent, nobody} with follow-up calls on the resulting state; end users x paths through the client handler (also: owner/other-user alternations and concurrent bursts on private prefixes; two users of different private backends in flight with client-supplied X-Inverting-Proxy-Request-ID / -Backend-ID / -User-ID headers of equal values while only one backend's agent answers - the other user must not receive that answer; the response cache across users with and without a user ID in the Users API); scripted histories (agent works, the same backend ID is registered again for another agent account and end user, old and new agent on every endpoint, former and new end user through the client handler, unregister, original registration restored) and random-order histories, both judged against an evolving model of who is registered; the cross-backend, unknown-ID and unauthorised agent calls repeated with one failing store read each (k-th datastore Get / memcache Get / RunQuery of that handler invocation, or the first two / first three / all datastore Gets, internal error or timeout: acceptance and foreign writes stay forbidden, 4xx/5xx are admissible); every call goes through appengine's handleHTTP and the app's routing closure; class = (kind, endpoint, identity class, named-backend class, request-ID class, history?)")
+	r.SetRule("worlds of 1-3 registered backends (distinct/shared agent accounts, per-user/shared end users, plain and exotic IDs, IDs related across a separator (B2 = B1<sep>word for sep in : / | \" space . % \\) with request IDs crafted so that (backend, request ID) read across the separator names another backend's request, pending and answered requests with planted secrets) x caller identity {no OAuth, a token whose account has an empty e-mail address, stranger, OAuth admin that is no agent, each agent} x endpoint {pending, request, response} x named backend {each, unknown, absent} x request ID {pending/answered of each backend, unknown, absent}; admin API {list, add, takeover, garbage, delete, other methods/paths} x {App Engine admin, OAuth admin, plain user, agent, nobody, OAuth accounts with an empty / blank / \",\" e-mail address} with follow-up calls on the resulting state; end users x paths through the client handler (also: owner/other-user alternations and concurrent bursts on private prefixes; two users of different private backends in flight with client-supplied X-Inverting-Proxy-Request-ID / -Backend-ID / -User-ID headers of equal values while only one backend's agent answers - the other user must not receive that answer; the response cache across users with and without a user ID in the Users API); scripted histories (agent works, the same backend ID is registered again for another agent account and end user, old and new agent on every endpoint, former and new end user through the client handler, unregister, original registration restored) and random-order histories, both judged against an evolving model of who is registered; the cross-backend, unknown-ID and unauthorised agent calls repeated with one failing store read each (k-th datastore Get / memcache Get / RunQuery of that handler invocation, or the first two / first three / all datastore Gets, internal error or timeout: acceptance and foreign writes stay forbidden, 4xx/5xx are admissible); every call goes through appengine's handleHTTP and the app's routing closure; class = (kind, endpoint, identity class, named-backend class, request-ID class, history?)")
 	r.Assume("/cron/delete is executed but not judged (documented as restricted by app.yaml); an authorised call reading or writing keys in its own backend's namespace that merely contain a caller-supplied foreign request ID is not counted as touching the other backend; status codes for unknown/absent request IDs are only required to be 4xx; client requests are cut short once queued (incoming context cancelled) instead of waiting 30 s")
 	bin := r.MustBuild(e3Build(r))
 	rng := r.Rand("c17")
